@@ -30,6 +30,9 @@ FORBIDDEN = r'\b(Admitted|admit|Axiom|Axioms|Parameter|Parameters|Conjecture|Con
 # properties with kind-E theorems: the model is additionally driven against the real engine along EVERY transition of the explored
 # state graph of every catalogue program (harness/exhaustive.py)
 E_PROPS = {'C01', 'C02', 'C03', 'C04', 'C05', 'C06', 'C07', 'C08', 'C09', 'C10', 'C11', 'C14', 'C17', 'C19'}
+# properties for which generated small programs are model-checked for ALL schedules by the extracted explorer and the real engine is
+# driven along every transition of their state graphs (harness/modelcheck.py)
+MC_PROPS = {'C01', 'C02', 'C03', 'C04', 'C05', 'C06', 'C09', 'C10', 'C11', 'C13', 'C14', 'C19'}
 ALLOWED_AXIOMS = set()     # the development targets "Closed under the global context" everywhere
 
 TRUSTED_BASE = [
@@ -207,6 +210,28 @@ def run_exhaustive(seed, tier):
     return stats, per, broken, errors
 
 
+def run_modelcheck(prop, seed, tier):
+    n = 8
+    procs = []
+    for w in range(n):
+        env = dict(os.environ, PYTHONHASHSEED=str((seed * 13 + w) % 1000), PYTHONPATH=os.environ.get('VERIF_REPO', '/repo'),
+                   PYTHONDONTWRITEBYTECODE='1', VERIF_REPO=os.environ.get('VERIF_REPO', '/repo'))
+        procs.append(subprocess.Popen([PY, os.path.join(HERE, 'modelcheck.py'), prop, str(seed), tier, str(w), str(n)],
+                                      stdout=subprocess.PIPE, stderr=subprocess.PIPE, text=True, env=env, cwd=HERE))
+    stats, viol, broken, samples, errors = collections.Counter(), [], [], [], []
+    for p in procs:
+        try:
+            out, err = p.communicate(timeout=7200)
+            r = json.loads(out.strip().splitlines()[-1])
+            stats.update(r['stats'])
+            viol += r['violations']
+            broken += r['k2_broken']
+            samples += r['samples']
+        except Exception as e:  # noqa: BLE001
+            errors.append('model-checking worker failed: %s %s' % (e, (err or '')[-300:] if 'err' in dir() else ''))
+    return stats, viol, broken, samples, errors
+
+
 def merge(results):
     agg = dict(stats=collections.Counter(), dist=collections.Counter(), violations=[], k2_broken=[], known_hits=collections.Counter(),
                samples=[], distinct_nontrivial=0, known=[], rule=None)
@@ -293,6 +318,14 @@ def main():
             agg['k2_broken'] += [dict(b, diffs=['catalogue program, exhaustive correspondence: ' + d for d in b['diffs']]) for b in xbroken]
             agg['stats']['k2_compared'] += xs.get('transitions', 0)
             agg['stats']['k2_disagree'] += xs.get('disagree', 0)
+        if prop in MC_PROPS:
+            ms, mviol, mbroken, msamples, merr = run_modelcheck(prop, seed, tier)
+            worker_errors += merr
+            agg['modelcheck'] = dict(stats=dict(ms), samples=msamples[:2])
+            agg['violations'] += mviol
+            agg['k2_broken'] += mbroken
+            agg['stats']['k2_compared'] += ms.get('transitions', 0)
+            agg['stats']['k2_disagree'] += ms.get('disagree', 0)
     else:
         worker_errors.append('model driver missing')
 
@@ -351,6 +384,9 @@ def main():
                   corpus=dict(fixed_defects_replayed=corpus.get('n_fixed', 0), known_findings_replayed=[k['id'] for k in corpus.get('known', [])]),
                   obligations_broken=obligations_broken,
                   catalogue_correspondence=agg.get('exhaustive', {}),
+                  generated_programs_all_schedules=agg.get('modelcheck', {}),
+                  states=int(agg.get('modelcheck', {}).get('stats', {}).get('states', 0)),
+                  transitions=int(agg.get('modelcheck', {}).get('stats', {}).get('transitions', 0)) + int(agg.get('exhaustive', {}).get('stats', {}).get('transitions', 0)),
                   exhaustive=False))
     if level == 'proof' and ev['coverage']['discharged'] < 1:
         ev['coverage']['discharged'] = 0
